@@ -276,10 +276,23 @@ func checkQuoteHelpers(c *Ctx) {
 			bad := ""
 			a.Cond.Walk(func(x *core.Term) bool {
 				if x.Op == "call" && strings.HasPrefix(x.Name, "packets.") && rawQuoteHelpers[x.Name] == "" {
-					for _, arg := range x.Args {
+					for ai, arg := range x.Args {
 						as := arg.String()
 						if (strings.Contains(as, ".Payload") && (strings.Contains(as, "ICMP4") || strings.Contains(as, "ICMP6"))) || (strings.Contains(as, "innerPkt") && strings.Contains(as, ".Contents")) {
-							bad = "module helper " + x.Name + " computed over the raw quoted header bytes"
+							// a helper that only hands the bytes to the layer decoder / keeps a copy is a moved piece of the parser;
+							// one that reads the bytes itself computes over what routers rewrite
+							inspected := true
+							if site, ok := x.Val.(*ssa.Call); ok {
+								if h := site.Common().StaticCallee(); h != nil {
+									off := len(h.Params) - len(x.Args)
+									if off >= 0 && ai+off < len(h.Params) {
+										inspected = inspectsBytes(c.P, h, h.Params[ai+off], 0)
+									}
+								}
+							}
+							if inspected {
+								bad = "module helper " + x.Name + " computed over the raw quoted header bytes"
+							}
 						}
 					}
 				}
@@ -407,4 +420,96 @@ func checkBudget(c *Ctx) {
 		R.Floor("R02.4:receiver-ctx-tests", nerr, 1)
 	}
 	R.Floor("R02.4:receiver-closure", nrecv, 1)
+}
+
+// inspectsBytes: function h reads individual bytes of (a slice derived from) its parameter v, directly or in a module callee
+// that is not a reviewed raw-quote helper. Handing the slice to a layer decoder, cloning, slicing and length tests do not count.
+func inspectsBytes(p *core.Prog, h *ssa.Function, v ssa.Value, depth int) bool {
+	if depth > 3 || len(h.Blocks) == 0 {
+		return true
+	}
+	seen := map[ssa.Value]bool{}
+	var visit func(x ssa.Value) bool
+	visit = func(x ssa.Value) bool {
+		if seen[x] || x.Referrers() == nil {
+			return false
+		}
+		seen[x] = true
+		for _, r := range *x.Referrers() {
+			switch y := r.(type) {
+			case *ssa.IndexAddr:
+				if y.X == x {
+					return true
+				}
+			case *ssa.Index:
+				if y.X == x {
+					return true
+				}
+			case *ssa.Lookup:
+				if y.X == x {
+					return true
+				}
+			case *ssa.Range:
+				return true
+			case *ssa.Slice:
+				if visit(y) {
+					return true
+				}
+			case *ssa.Phi:
+				if visit(y) {
+					return true
+				}
+			case *ssa.ChangeType:
+				if visit(y) {
+					return true
+				}
+			case *ssa.Convert:
+				if visit(y) {
+					return true
+				}
+			case *ssa.MakeInterface:
+				if visit(y) {
+					return true
+				}
+			case ssa.CallInstruction:
+				cc := y.Common()
+				if bi, ok := cc.Value.(*ssa.Builtin); ok {
+					switch bi.Name() {
+					case "len", "cap", "append", "copy":
+						continue
+					}
+					return true
+				}
+				name := core.CalleeName(cc)
+				if cc.IsInvoke() {
+					if cc.Method.Name() == "DecodeFromBytes" {
+						continue
+					}
+					return true
+				}
+				g := cc.StaticCallee()
+				if g == nil {
+					return true
+				}
+				if !core.InModule(g) {
+					if g.Name() == "DecodeFromBytes" || name == "slices.Clone" || name == "bytes.Clone" || strings.HasPrefix(name, "slices.Clone[") {
+						continue
+					}
+					return true
+				}
+				if rawQuoteHelpers[name] != "" {
+					continue
+				}
+				for i, a := range cc.Args {
+					if a == x && i < len(g.Params) {
+						if inspectsBytes(p, g, g.Params[i], depth+1) {
+							return true
+						}
+					}
+				}
+			}
+		}
+		return false
+	}
+	return visit(v)
 }
